@@ -107,7 +107,7 @@ class Unit:
             if fi is not None:
                 if fi.is_property:
                     return interp.call_qual(module, f'{cname}.{attr}', [], {}, bound_self=obj)
-                return FuncRef(module, f'{cname}.{attr}', bound_self=obj)
+                return FuncRef(module, f'{cname}.{attr}', bound_self=None if fi.is_staticmethod else obj)
         raise Unsupported(f'attribute {attr} of {cls}', line)
 
     def obj_has_attr(self, interp, obj, attr):
@@ -143,6 +143,10 @@ class Unit:
         return out
 
     def subscript_hook(self, interp, base, idx, line):
+        if isinstance(base, SObj):
+            for module, cname in self.class_chain(base._cls):
+                if self.sources.function(module, f'{cname}.__getitem__') is not None:
+                    return interp.call_qual(module, f'{cname}.__getitem__', [idx], {}, bound_self=base)
         return NotImplemented
 
     def list_index_hook(self, interp, base, j, line):
@@ -166,6 +170,10 @@ class Unit:
         return NotImplemented
 
     def len_hook(self, interp, v, line):
+        if isinstance(v, SObj) and v.has('_n'):
+            return v.get('_n')
+        if isinstance(v, SObj) and v.has('coords') and isinstance(v.get('coords'), STensor):
+            return v.get('coords').shape[0]  # pymatgen Trajectory.__len__ = number of frames
         return NotImplemented
 
     def set_hook(self, interp, v, line):
@@ -244,6 +252,12 @@ class Unit:
             cn = c.name if isinstance(c, (ClassRef,)) else (c.dotted.split('.')[-1] if isinstance(c, LibRef) else getattr(c, 'name', None))
             if cn == 'str' and isinstance(v, str):
                 return True
+            if cn == 'slice' and isinstance(v, slice):
+                return True
+            if cn == 'ndarray' and isinstance(v, (STensor, np.ndarray)):
+                return True
+            if cn == 'int' and isinstance(v, bool):
+                return False
             if cn == 'float' and (isinstance(v, float) or (is_sym(v) and z3.is_real(v))):
                 return True
             if cn == 'int' and V.is_int_like(v):
@@ -793,6 +807,7 @@ class Unit:
                 fi = unit.sources.function(module, qualname)
                 if fi is None:
                     raise Unsupported(f'function {key} not found in the working tree')
+                interp.top_call_pending = True  # the function under proof is executed from its real body, callees by contract
                 result = interp.call_qual(module, qualname, args, kwargs)
             except _Raise as r:
                 info['n_raise'] += 1
